@@ -602,3 +602,5 @@ def check(src, rep, tier):
     rep.need('C17.R5', 3)
     rep.guard('C17.R5', common.check_line_primitive, src, 'C17.R5', [M + ':format_multiline', M + ':parse_multiline_as_lines', M + ':License.to_str'],
               'a copyright or license text that contains such a character inside a line (the form feeds of the GPL texts, U+2028 from a web page) comes back with that line cut in two')
+    from . import common as _common_flags
+    rep.guard('C17.R2', _common_flags.check_re_positional_flags, src, 'C17.R2', 'copyright', 'a list field with more items than that is cut short')
